@@ -41,6 +41,23 @@ def handle (op : String) (args : List String) : Option String :=
            | .errPow => "err:validation"
            | .pyStructError => "err:py:error")
       | _, _, _ => badArgs
+  -- a history of checks, each under the chain selected for it: chain hash bits chain hash bits ...
+  -- the model has no state to carry: every step is the function of (selected chain, hash, nBits)
+  | "c17.powSeq", args => some <|
+      let rec go : List String → Option (List String)
+        | [] => some []
+        | chain :: hash :: bits :: rest =>
+            match Spec.chainByName? chain, parseHex? hash, parseNat? bits, go rest with
+            | some p, some h, some b, some tl =>
+                some ((match Model.checkPoW p.powLimit h b with
+                       | .ok => "ok"
+                       | .errPow => "err:validation"
+                       | .pyStructError => "err:py:error") :: tl)
+            | _, _, _, _ => none
+        | _ => none
+      match go args with
+      | some outs => ",".intercalate outs
+      | none => badArgs
   | "c17.spec.powChain", [chain, hash, bits] => some <|
       match Spec.chainByName? chain, parseHex? hash, parseNat? bits with
       | some p, some h, some b => if Spec.powValid p.powLimit h b then "ok" else "err:validation"
